@@ -23,8 +23,8 @@ def run(ctx):
     if ctx.quick:
         stages = [("c10", [("A12", ["A"], (4, 4, 0)), ("A3", ["A"], (0, 0, 3)), ("B", ["B"], (0,))], 2)]
     else:
-        stages = [("c10", [("A12", ["A"], (4, 4, 0, 0)), ("A3", ["A"], (0, 0, 4, 0)), ("B", ["B"], (0,))], 6),
-                  ("c10-4", [("A4", ["A"], (0, 0, 0, 4))], 2)]
+        stages = [("c10", [("A12", ["A"], (4, 4, 0, 0)), ("A3", ["A"], (0, 0, 4, 0)), ("B", ["B"], (0,))], 5),
+                  ("c10-4", [("A4", ["A"], (0, 0, 0, 4))], 5)]
     table, res, files, cov, nrows, nevents = [], [], [], {}, 0, 0
     for (tag, parts, per) in stages:
         t = ing.mc_and_gen(ctx, [(n, f, a, False) for (n, f, a) in parts])
